@@ -132,6 +132,28 @@ def simple_setter(cls, name):
     return out
 
 
+def state_by_reference(T) -> bool:
+    """copy.copy(x) for a class without __copy__: does the copy share the attribute dict of x (read from the source of
+    __getstate__ / __setstate__)"""
+    _, gs = find_def(T, "__getstate__")
+    _, ss = find_def(T, "__setstate__")
+    if not inspect.isfunction(gs) or not inspect.isfunction(ss):
+        return False
+    try:
+        g = [ast.unparse(x) for x in body_of(fn_ast(gs))]
+        st = [ast.unparse(x) for x in body_of(fn_ast(ss))]
+    except (OSError, TypeError):
+        return False
+    hands_dict = g == ["return self.__dict__"]
+    param = fn_ast(ss).args.args[1].arg if len(fn_ast(ss).args.args) > 1 else "state"
+    installs = any(x in (f"object.__setattr__(self, '__dict__', {param})", f"self.__dict__ = {param}") for x in st)
+    return hands_dict and installs
+
+
+NUMPY_COPY = ("np.array", "numpy.array", "np.copy", "numpy.copy")
+NUMPY_ALIAS = ("np.asarray", "numpy.asarray", "np.asanyarray", "numpy.asanyarray")
+
+
 def ctor_stores(cls):
     """-> {param: (attr, 'param'|'container')} for `__init__(self, p)` storing `self.a = p | list(p) | set(p or [])`"""
     k, f = find_def(cls, "__init__")
@@ -143,11 +165,21 @@ def ctor_stores(cls):
         return {}
     params = [a.arg for a in fd.args.args[1:]]
     out = {}
+    via_local = {}  # local name -> (param, 'copy' | 'asarray'): values = np.array(data, ...) / np.asarray(data, ...)
+    for s in ast.walk(fd):
+        if isinstance(s, ast.Assign) and len(s.targets) == 1 and isinstance(s.targets[0], ast.Name) and isinstance(s.value, ast.Call):
+            ftxt = ast.unparse(s.value.func)
+            a0 = s.value.args[0] if s.value.args else None
+            if isinstance(a0, ast.Name) and a0.id in params and ftxt in NUMPY_COPY + NUMPY_ALIAS:
+                via_local[s.targets[0].id] = (a0.id, "copy" if ftxt in NUMPY_COPY else "asarray")
     for s in ast.walk(fd):
         if isinstance(s, (ast.Assign, ast.AnnAssign)):
             t = s.targets[0] if isinstance(s, ast.Assign) else s.target
             v = s.value
             if v is None or not is_attr_of(t, "self"):
+                continue
+            if isinstance(v, ast.Name) and v.id in via_local:
+                out[via_local[v.id][0]] = (t.attr, via_local[v.id][1])
                 continue
             names = {n.id for n in ast.walk(v) if isinstance(n, ast.Name)}
             used = [p for p in params if p in names]
@@ -288,7 +320,10 @@ class Translator:
                 if isinstance(v, ast.Name) and v.id == var:
                     break
                 # return K(self.a) / return K(local)
-                if isinstance(v, ast.Call) and len(v.args) == 1 and not v.keywords and var is None:
+                if isinstance(v, ast.Call) and var is None and ((len(v.args) == 1 and not v.keywords) or (
+                        not v.args and len(v.keywords) == 1 and v.keywords[0].arg in ctor_stores(T))):
+                    if v.keywords:
+                        v = ast.Call(func=v.func, args=[v.keywords[0].value], keywords=[])
                     kname = ast.unparse(v.func)
                     if kname in [k.__name__ for k in T.__mro__] or kname == "self.__class__":
                         stores = ctor_stores(T)
@@ -305,6 +340,13 @@ class Translator:
                                     inner = SHALLOW
                                 elif inner[0] not in ("each",):
                                     raise Untranslatable(f"{T.__name__}: constructor argument {ast.unparse(arg)[:40]}")
+                            elif how == "copy":      # np.array(x): a new buffer
+                                if inner != ALIAS:
+                                    raise Untranslatable(f"{T.__name__}: np.array of {ast.unparse(arg)[:40]}")
+                                inner = DEEP
+                            elif how == "asarray":   # np.asarray(x) of an ndarray: the very same buffer
+                                if inner != ALIAS:
+                                    raise Untranslatable(f"{T.__name__}: np.asarray of {ast.unparse(arg)[:40]}")
                             fields[attr] = inner
                             var = "<ctor>"
                             break
@@ -347,8 +389,11 @@ class Translator:
             else:
                 k, f = find_def(T, how)
                 if f is None and how == "__copy__":
-                    # generic copy.copy(): a new object of the same class, every attribute by reference
-                    pols.append(SHALLOW)
+                    # generic copy.copy(): __reduce_ex__ -> state = __getstate__(); a new object gets the state by
+                    # __setstate__(state) or __dict__.update(state).  A class whose __getstate__ returns self.__dict__ ITSELF and
+                    # whose __setstate__ installs the state object as the new __dict__ (DXFNamespace) yields a second wrapper
+                    # around the SAME attribute dict: the state is passed by reference
+                    pols.append(ALIAS if state_by_reference(T) else SHALLOW)
                 elif f is None:
                     raise Untranslatable(f"{where}: {T.__name__} has no method {how}")
                 else:
